@@ -5,14 +5,27 @@
    else initial tokens), bmax]. *)
 EXTENDS Integers, Sequences, FiniteSets, TLC
 CONSTANTS Callers, CfgSet, MaxTime, Outs, Keys
-VARIABLES cfg, now, st, key, attempt, until, gout, gid, ngate, tokens, ev
-vars == <<cfg, now, st, key, attempt, until, gout, gid, ngate, tokens, ev>>
-view == <<cfg, now, st, key, attempt, until, gout, gid, ngate, tokens>>
+VARIABLES cfg, now, st, key, attempt, until, untilHi, gout, gid, ngate, tokens, blim, ev
+vars == <<cfg, now, st, key, attempt, until, untilHi, gout, gid, ngate, tokens, blim, ev>>
+view == <<cfg, now, st, key, attempt, until, untilHi, gout, gid, ngate, tokens, blim>>
 Min2(a, b) == IF a < b THEN a ELSE b
+HasBudget0 == cfg.budget >= 0
 RECURSIVE Pow2(_)
 Pow2(k) == IF k = 0 THEN 1 ELSE 2 * Pow2(k - 1)
 \* delay before retry number k+1 (k = attempts made so far - 1); see Backoff.tla for the schedule
 Backoff(k) == IF cfg.bo = "fixed" THEN cfg.b0 ELSE Min2(cfg.b0 * Pow2(IF k > 20 THEN 20 ELSE k), cfg.cap)
+\* jittered backoff (randomization factor 1/2): the sleep ends somewhere in [base/2, 3*base/2] (+1 ms timer rounding)
+BackoffLo(k) == IF cfg.bo = "rand" THEN Backoff(k) \div 2 ELSE Backoff(k)
+BackoffHi(k) == IF cfg.bo = "rand" THEN (3 * Backoff(k) + 1) \div 2 + 1 ELSE Backoff(k)
+\* budget kinds: "tb" token bucket (cost 1, deposit 1, ceiling bmax); "aimd": cost / amount from cfg, the ceiling blim
+\* moves by the AIMD rule (halved towards bmin on a refused withdrawal, +1 towards bmax on a deposit)
+Aimd == "btype" \in DOMAIN cfg /\ cfg.btype = "aimd"
+Cost == IF Aimd THEN cfg.cost ELSE 1
+Max2(a, b) == IF a > b THEN a ELSE b
+AfterDeposit == IF ~HasBudget0 THEN <<tokens, blim>>
+                ELSE IF Aimd THEN <<Min2(tokens + cfg.amount, blim), Min2(blim + 1, cfg.bmax)>>
+                ELSE <<Min2(tokens + 1, cfg.bmax), blim>>
+AfterRefusal == IF Aimd THEN <<tokens, Max2((blim * cfg.fnum) \div 4, cfg.bmin)>> ELSE <<tokens, blim>>
 MaxAtt(c) == IF cfg.perReq = 1 THEN key[c] - 1 ELSE cfg.max
 Retryable(o) == o = "e1" \/ (o = "e2" /\ cfg.pred = "all")
 HasBudget == cfg.budget >= 0
@@ -20,63 +33,66 @@ InitWith(cf) ==
   /\ cfg = cf /\ now = 0 /\ st = [c \in Callers |-> "idle"] /\ key = [c \in Callers |-> 1]
   /\ attempt = [c \in Callers |-> 0] /\ until = [c \in Callers |-> 0] /\ gout = [c \in Callers |-> "none"]
   /\ gid = [c \in Callers |-> 0] /\ ngate = 0 /\ tokens = (IF cf.budget >= 0 THEN cf.budget ELSE 0)
+  /\ untilHi = [c \in Callers |-> 0] /\ blim = cf.bmax
 Init == (\E cf \in CfgSet : InitWith(cf)) /\ ev = [e |-> "init"]
 Reset(cf) ==
   /\ cfg' = cf /\ now' = 0 /\ st' = [c \in Callers |-> "idle"] /\ key' = [c \in Callers |-> 1]
   /\ attempt' = [c \in Callers |-> 0] /\ until' = [c \in Callers |-> 0] /\ gout' = [c \in Callers |-> "none"]
   /\ gid' = [c \in Callers |-> 0] /\ ngate' = 0 /\ tokens' = (IF cf.budget >= 0 THEN cf.budget ELSE 0)
+  /\ untilHi' = [c \in Callers |-> 0] /\ blim' = cf.bmax
   /\ ev' = [e |-> "reset"]
 Bal(t) == IF HasBudget THEN [bal |-> t] ELSE <<>>
 
 Create(c, k) ==
   /\ st[c] = "idle" /\ st' = [st EXCEPT ![c] = "created"] /\ key' = [key EXCEPT ![c] = k]
   /\ ev' = [e |-> "create", c |-> c, key |-> k, t |-> now, res |-> "created", ns |-> 0] @@ Bal(tokens)
-  /\ UNCHANGED <<cfg, now, attempt, until, gout, gid, ngate, tokens>>
+  /\ UNCHANGED <<cfg, now, attempt, until, untilHi, gout, gid, ngate, tokens, blim>>
 \* an attempt starts: first poll, or the poll after the backoff sleep (never before it is over)
 PollAttempt(c) ==
   /\ \/ st[c] = "created"
-     \/ (st[c] = "sleeping" /\ now >= until[c])
+     \/ (st[c] = "sleeping" /\ now >= until[c] /\ now <= untilHi[c])
   /\ st' = [st EXCEPT ![c] = "calling"] /\ gout' = [gout EXCEPT ![c] = "pending"]
   /\ gid' = [gid EXCEPT ![c] = ngate + 1] /\ ngate' = ngate + 1
   /\ ev' = [e |-> "poll", c |-> c, t |-> now, res |-> "pending", ns |-> 1, si |-> ngate + 1, sc |-> c, nd |-> 0] @@ Bal(tokens)
-  /\ UNCHANGED <<cfg, now, key, attempt, until, tokens>>
+  /\ UNCHANGED <<cfg, now, key, attempt, until, untilHi, tokens, blim>>
 Complete(c, o) ==
   /\ st[c] = "calling" /\ gout[c] = "pending" /\ gout' = [gout EXCEPT ![c] = o]
   /\ ev' = [e |-> "complete", c |-> c, i |-> gid[c], out |-> o, t |-> now] @@ Bal(tokens)
-  /\ UNCHANGED <<cfg, now, st, key, attempt, until, gid, ngate, tokens>>
-Fin(c, r, tk) ==
-  /\ st' = [st EXCEPT ![c] = "done"] /\ tokens' = tk
-  /\ ev' = r @@ [e |-> "poll", c |-> c, t |-> now, ns |-> 0, nd |-> 1] @@ Bal(tk)
-  /\ UNCHANGED <<attempt, until>>
+  /\ UNCHANGED <<cfg, now, st, key, attempt, until, untilHi, gid, ngate, tokens, blim>>
+Fin(c, r, tb) ==
+  /\ st' = [st EXCEPT ![c] = "done"] /\ tokens' = tb[1] /\ blim' = tb[2]
+  /\ ev' = r @@ [e |-> "poll", c |-> c, t |-> now, ns |-> 0, nd |-> 1] @@ Bal(tb[1])
+  /\ UNCHANGED <<attempt, until, untilHi>>
 ErrEv(c) == [res |-> "err", kind |-> (IF gout[c] = "e1" THEN "inner1" ELSE "inner2"), val |-> gid[c]]
 \* the poll that sees the outcome of the current attempt
 PollOutcome(c) ==
   /\ st[c] = "calling" /\ gout[c] \in {"ok", "e1", "e2"}
   /\ IF gout[c] = "ok"
-     THEN Fin(c, [res |-> "ok", val |-> gid[c], rq |-> c], IF HasBudget THEN Min2(tokens + 1, cfg.bmax) ELSE tokens)   \* success funds the budget
-     ELSE IF ~Retryable(gout[c]) THEN Fin(c, ErrEv(c), tokens)                      \* refused by the predicate
-     ELSE IF attempt[c] + 1 >= MaxAtt(c) THEN Fin(c, ErrEv(c), tokens)             \* attempts exhausted
-     ELSE IF HasBudget /\ tokens < 1 THEN Fin(c, ErrEv(c), tokens)                 \* no grant, no retry
+     THEN Fin(c, [res |-> "ok", val |-> gid[c], rq |-> c], AfterDeposit)             \* success funds the budget
+     ELSE IF ~Retryable(gout[c]) THEN Fin(c, ErrEv(c), <<tokens, blim>>)               \* refused by the predicate
+     ELSE IF attempt[c] + 1 >= MaxAtt(c) THEN Fin(c, ErrEv(c), <<tokens, blim>>)      \* attempts exhausted
+     ELSE IF HasBudget /\ tokens < Cost THEN Fin(c, ErrEv(c), AfterRefusal)           \* no grant, no retry
      ELSE /\ st' = [st EXCEPT ![c] = "sleeping"] /\ attempt' = [attempt EXCEPT ![c] = @ + 1]
-          /\ until' = [until EXCEPT ![c] = now + Backoff(attempt[c])]
-          /\ tokens' = (IF HasBudget THEN tokens - 1 ELSE tokens)
-          /\ ev' = [e |-> "poll", c |-> c, t |-> now, res |-> "pending", ns |-> 0, nd |-> 1] @@ Bal(IF HasBudget THEN tokens - 1 ELSE tokens)
+          /\ until' = [until EXCEPT ![c] = now + BackoffLo(attempt[c])]
+          /\ untilHi' = [untilHi EXCEPT ![c] = now + BackoffHi(attempt[c])]
+          /\ tokens' = (IF HasBudget THEN tokens - Cost ELSE tokens) /\ blim' = blim
+          /\ ev' = [e |-> "poll", c |-> c, t |-> now, res |-> "pending", ns |-> 0, nd |-> 1] @@ Bal(IF HasBudget THEN tokens - Cost ELSE tokens)
   /\ UNCHANGED <<cfg, now, key, gout, gid, ngate>>
 PollStutter(c) ==
   /\ \/ (st[c] = "calling" /\ gout[c] = "pending")
-     \/ (st[c] = "sleeping" /\ now < until[c])
+     \/ (st[c] = "sleeping" /\ now < untilHi[c])
   /\ ev' = [e |-> "poll", c |-> c, t |-> now, res |-> "pending", ns |-> 0, nd |-> 0] @@ Bal(tokens)
-  /\ UNCHANGED <<cfg, now, st, key, attempt, until, gout, gid, ngate, tokens>>
+  /\ UNCHANGED <<cfg, now, st, key, attempt, until, untilHi, gout, gid, ngate, tokens, blim>>
 Drop(c) ==
   /\ st[c] \in {"created", "calling", "sleeping"} /\ st' = [st EXCEPT ![c] = "done"]
   /\ ev' = [e |-> "drop", c |-> c, t |-> now, ns |-> 0] @@ Bal(tokens)
-  /\ UNCHANGED <<cfg, now, key, attempt, until, gout, gid, ngate, tokens>>
+  /\ UNCHANGED <<cfg, now, key, attempt, until, untilHi, gout, gid, ngate, tokens, blim>>
 Quiescent == \A c \in Callers : /\ st[c] # "created" /\ ~(st[c] = "calling" /\ gout[c] \notin {"none", "pending"})
-                                /\ ~(st[c] = "sleeping" /\ now >= until[c])
+                                /\ ~(st[c] = "sleeping" /\ now >= untilHi[c])
 Advance(d) ==
-  /\ d > 0 /\ Quiescent /\ \A c \in Callers : st[c] = "sleeping" => now + d <= until[c]
+  /\ d > 0 /\ Quiescent /\ \A c \in Callers : st[c] = "sleeping" => now + d <= untilHi[c]
   /\ now' = now + d /\ ev' = [e |-> "advance", d |-> d, t |-> now + d] @@ Bal(tokens)
-  /\ UNCHANGED <<cfg, st, key, attempt, until, gout, gid, ngate, tokens>>
+  /\ UNCHANGED <<cfg, st, key, attempt, until, untilHi, gout, gid, ngate, tokens, blim>>
 PollAny(c) == PollAttempt(c) \/ PollOutcome(c) \/ PollStutter(c)
 Next ==
   \/ \E c \in Callers : (\E k \in Keys : Create(c, k)) \/ PollAttempt(c) \/ PollOutcome(c)
@@ -85,5 +101,5 @@ Next ==
 Spec == Init /\ [][Next]_vars
 \* C05 at design level
 AttemptsBounded == \A c \in Callers : attempt[c] + 1 <= (IF MaxAtt(c) > 1 THEN MaxAtt(c) ELSE 1)
-BudgetNonNegative == tokens >= 0 /\ (HasBudget => tokens <= cfg.bmax)
+BudgetNonNegative == tokens >= 0 /\ (HasBudget => tokens <= cfg.bmax) /\ (Aimd => cfg.bmin <= blim /\ blim <= cfg.bmax)
 =============================================================================
